@@ -82,7 +82,7 @@ def check(mod, prop, tier, seed, no_build=False):
         # the source changed in a way the translator / the equality proofs do not follow: the source tie is not
         # established, the correspondence still is — look harder (thorough generators) before saying "held"
         searched = True
-        run.search_deadline = time.time() + 240
+        run.search_deadline = time.time() + 150
         run.notes.append(f'source tie not established for SrcTie modules {src_broken}: thorough generators were run')
         mod.explore(run, 'thorough')
     if (tie.failures or run.mismatches) and not run.violations:
